@@ -34,3 +34,20 @@ Print Assumptions C16_versions_injective.
 Example C16_example :
   role_filename true 42 [97; 47; 98] = [52; 50; 46; 97; 37; 50; 70; 98; 46; 106; 115; 111; 110].
 Proof. vm_compute. reflexivity. Qed.
+
+(* The file a local client opens (Model/Url.v: Url::join on the metadata base URL, urlpath.rs / FilesystemTransport
+   opening the URL path as it stands): the file name of a delegated role is a plain name - nothing in it is
+   percent-encoded again, cut at '?' or '#', taken for a dot segment, a drive letter or a URL of its own - and what is
+   opened is the entry of exactly that name directly inside the metadata directory. (Until this theorem the check
+   listed this as an assumption about Url::join.) *)
+From ToughV Require Export Model.TName Model.Url.
+From ToughV Require Import Proofs.UrlP.
+Theorem C16_file_url_opens_entry : forall base cs v name,
+  forallb (fun c => negb (is_empty c)) base = true -> is_bytes name ->
+  url_plain (role_filename cs v name) = true
+  /\ url_join base (role_filename cs v name) = UPath (base ++ [role_filename cs v name]) false.
+Proof.
+  intros base cs v name Hb Hn. split;
+    [exact (role_filename_url_plain cs v name Hn) | exact (role_file_opened base cs v name Hb Hn)].
+Qed.
+Print Assumptions C16_file_url_opens_entry.
